@@ -179,12 +179,21 @@ Proof.
 Qed.
 
 (** ---- the specification, cell by cell, for the collectives with a one-line MPI definition *)
+Lemma zseq_from_length : forall n s, List.length (zseq_from s n) = n.
+Proof. induction n; intros; cbn [zseq_from List.length]; [reflexivity | now rewrite IHn]. Qed.
 Lemma zseq_length : forall n, List.length (zseq n) = Z.to_nat n.
-Proof. intros; unfold zseq; now rewrite map_length, seq_length. Qed.
-Lemma zseq_nth : forall n k, 0 <= k < n -> nth (Z.to_nat k) (zseq n) (-1) = k.
+Proof. intros; unfold zseq; apply zseq_from_length. Qed.
+Lemma zseq_from_nth : forall n s k, (k < n)%nat -> nth k (zseq_from s n) (-1) = s + Z.of_nat k.
 Proof.
-  intros n k H; unfold zseq. rewrite nth_indep with (d' := Z.of_nat 0%nat) by (rewrite map_length, seq_length; lia).
-  rewrite map_nth, seq_nth by lia. lia.
+  induction n; intros s k H; [lia |]. cbn [zseq_from]. destruct k; cbn [nth]; [lia |].
+  rewrite IHn by lia. lia.
+Qed.
+Lemma zseq_nth : forall n k, 0 <= k < n -> nth (Z.to_nat k) (zseq n) (-1) = k.
+Proof. intros n k H; unfold zseq. rewrite zseq_from_nth by lia. lia. Qed.
+Lemma zseq_from_in : forall n s x, In x (zseq_from s n) -> s <= x.
+Proof.
+  induction n; intros s x H; cbn [zseq_from In] in H; [tauto |]. destruct H as [-> | H]; [lia |].
+  apply IHn in H. lia.
 Qed.
 Lemma expand_single : forall len sh base k, 0 <= k < len ->
   nth (Z.to_nat k) (expand [mkrun len sh base]) [] = cell_at (mkrun len sh base) k.
@@ -233,7 +242,9 @@ Qed.
 (** every reducing specification has at most one contribution per rank (what compact_faithful needs) *)
 Lemma zseq_NoDup : forall n, NoDup (zseq n).
 Proof.
-  intros; unfold zseq. apply FinFun.Injective_map_NoDup; [intros a b; lia | apply seq_NoDup].
+  intros; unfold zseq. generalize 0. induction (Z.to_nat n) as [|k IH]; intros s; cbn [zseq_from]; constructor.
+  - intros H; apply zseq_from_in in H. lia.
+  - apply IH.
 Qed.
 Lemma allr_fst : forall np i, map fst (allr np i) = zseq np.
 Proof. intros; unfold allr; rewrite map_map; cbn [fst]. apply map_id. Qed.
